@@ -30,6 +30,8 @@ enum M {
     Fail { t: u32 },
     #[serde(rename = "x.Sub")]
     Sub { t: u32, n: u32, #[serde(default)] p: u32 },
+    #[serde(rename = "x.Bad")]
+    Bad { t: u32 },
 }
 #[derive(Debug, ReplyError)]
 #[zlink(interface = "x", crate = "zlink_core")]
@@ -38,7 +40,16 @@ enum E {
 }
 #[derive(Debug, Serialize)]
 struct Rep {
+    #[serde(serialize_with = "ser_v")]
     v: u32,
+}
+/// `u32::MAX` stands for a reply the service hands over but that cannot be serialized.
+fn ser_v<S: serde::Serializer>(v: &u32, s: S) -> Result<S::Ok, S::Error> {
+    if *v == u32::MAX {
+        Err(serde::ser::Error::custom("unserializable reply"))
+    } else {
+        s.serialize_u32(*v)
+    }
 }
 
 struct Svc {
@@ -90,6 +101,10 @@ impl Service for Svc {
                 self.log.borrow_mut().push(format!("{}:{}", t / 1000, if ow { 'F' } else { 'f' }));
                 MethodReply::Error(E::Y)
             }
+            M::Bad { t } => {
+                self.log.borrow_mut().push(format!("{}:{}", t / 1000, if ow { 'U' } else { 'u' }));
+                MethodReply::Single(Some(Rep { v: u32::MAX }))
+            }
             M::Sub { t, n, p } => {
                 self.log.borrow_mut().push(format!("{}:s{}{}", t / 1000, n, if *p == 0 { String::new() } else { format!("p{p}") }));
                 // flag patterns: 0 = conventional (true … true, false), 1 = all true, 2 = alternating starting with
@@ -140,6 +155,8 @@ pub enum Desc {
     Echo(u32, bool),
     Fail(bool),
     Sub(u32, u32),
+    /// a call the service answers with a reply that cannot be serialized (oneway or not)
+    Unser(bool),
     Garbage(u8),
 }
 
@@ -149,6 +166,7 @@ impl Desc {
             Desc::Echo(v, ow) => format!("{}{}", if *ow { 'E' } else { 'e' }, v),
             Desc::Fail(ow) => (if *ow { "F" } else { "f" }).to_string(),
             Desc::Sub(n, p) => if *p == 0 { format!("s{n}") } else { format!("s{n}p{p}") },
+            Desc::Unser(ow) => (if *ow { "U" } else { "u" }).to_string(),
             Desc::Garbage(_) => "g".into(),
         }
     }
@@ -158,6 +176,7 @@ impl Desc {
             Desc::Echo(v, ow) => format!("{{\"method\":\"x.Echo\",\"parameters\":{{\"t\":{t},\"v\":{v}}}{}}}", if *ow { ",\"oneway\":true" } else { "" }),
             Desc::Fail(ow) => format!("{{\"parameters\":{{\"t\":{t}}},\"method\":\"x.Fail\"{}}}", if *ow { ",\"oneway\":true" } else { "" }),
             Desc::Sub(n, p) => format!("{{\"method\":\"x.Sub\",\"more\":true,\"parameters\":{{\"t\":{t},\"n\":{n},\"p\":{p}}}}}"),
+            Desc::Unser(ow) => format!("{{\"method\":\"x.Bad\",\"parameters\":{{\"t\":{t}}}{}}}", if *ow { ",\"oneway\":true" } else { "" }),
             Desc::Garbage(k) if k % 8 == 5 => {
                 // long run of non-UTF-8 bytes (never NUL)
                 return std::iter::repeat(0xFFu8).take(40 + (*k as usize)).collect();
@@ -209,6 +228,8 @@ pub struct Case {
     /// executor does; the scripted listener, sockets and reply streams keep the waker of a pending poll and wake it
     /// when their event happens. A wake-up the server loses shows as a client that is never answered.
     pub wake_driven: bool,
+    /// family tokens of the case line (`SV1`, `F2 H<n0>,<n1>,..`): which extra oracle the driver applies
+    pub family: String,
 }
 
 fn toks(out: &[u8]) -> Vec<String> {
@@ -232,7 +253,9 @@ fn toks(out: &[u8]) -> Vec<String> {
     v
 }
 
-pub fn run_case(c: &Case) -> (Vec<Vec<u8>>, Vec<String>, bool) {
+pub type Obs = (Vec<Vec<u8>>, Vec<String>, bool, Vec<usize>);
+
+pub fn run_case(c: &Case) -> Obs {
     let pending = Rc::new(RefCell::new(VecDeque::new()));
     let lwaker: Rc<RefCell<Option<Waker>>> = Rc::new(RefCell::new(None));
     let log = Rc::new(RefCell::new(vec![]));
@@ -243,12 +266,16 @@ pub fn run_case(c: &Case) -> (Vec<Vec<u8>>, Vec<String>, bool) {
         Svc { log: log.clone(), credits: credits.clone(), wakers: swakers.clone() },
     );
     let mut fut = Box::pin(server.run());
+    let glog = Rc::new(RefCell::new(Vec::<usize>::new()));
     let nets: Vec<NetRef> = c
         .conns
         .iter()
-        .map(|cs| {
+        .enumerate()
+        .map(|(i, cs)| {
             let n = new_net(vec![]);
             n.borrow_mut().write_fail_from = cs.wfail;
+            n.borrow_mut().gid = i;
+            n.borrow_mut().glog = Some(glog.clone());
             n
         })
         .collect();
@@ -304,16 +331,23 @@ pub fn run_case(c: &Case) -> (Vec<Vec<u8>>, Vec<String>, bool) {
     drop(fut);
     let outs = nets.iter().map(|n| n.borrow().writes.concat()).collect();
     let l = log.borrow().clone();
-    (outs, l, alive)
+    let g = glog.borrow().clone();
+    (outs, l, alive, g)
 }
 
-pub fn line(c: &Case, obs: &(Vec<Vec<u8>>, Vec<String>, bool)) -> String {
-    let mut s = String::from(match (c.upfront, c.wake_driven) {
-        (true, true) => "srv F1 W1 D",
-        (true, false) => "srv F1 D",
-        (false, true) => "srv W1 D",
-        (false, false) => "srv D",
-    });
+pub fn line(c: &Case, obs: &Obs) -> String {
+    let mut s = String::from("srv");
+    if c.upfront {
+        s.push_str(" F1");
+    }
+    if !c.family.is_empty() {
+        s.push(' ');
+        s.push_str(&c.family);
+    }
+    if c.wake_driven {
+        s.push_str(" W1");
+    }
+    s.push_str(" D");
     for (i, cs) in c.conns.iter().enumerate() {
         let ds: Vec<String> = cs.descs.iter().map(|d| d.tok()).collect();
         s.push_str(&format!(
@@ -346,6 +380,13 @@ pub fn line(c: &Case, obs: &(Vec<Vec<u8>>, Vec<String>, bool)) -> String {
         s.push(' ');
         s.push_str(l);
     }
+    s.push_str(" G");
+    if obs.3.is_empty() {
+        s.push_str(" -");
+    } else {
+        s.push(' ');
+        s.push_str(&obs.3.iter().map(|i| i.to_string()).collect::<Vec<_>>().join(","));
+    }
     s.push_str(if obs.2 { " X alive" } else { " X exited" });
     s
 }
@@ -360,6 +401,7 @@ fn gen_descs(rng: &mut Rng, maxcalls: usize, allow_garbage: bool, allow_sub: boo
             7 => Desc::Fail(rng.chance(1, 2)),
             8 | 9 if allow_sub => Desc::Sub(rng.below(5) as u32, if rng.chance(1, 2) { 0 } else { rng.range(1, 3) as u32 }),
             10 if allow_garbage => Desc::Garbage(rng.next() as u8),
+            11 if allow_garbage && rng.chance(1, 2) => Desc::Unser(rng.chance(1, 3)),
             _ => Desc::Echo(rng.below(1000) as u32, false),
         })
         .collect()
@@ -513,7 +555,7 @@ pub fn gen_case(rng: &mut Rng, g: &GenOpts) -> Case {
     evs.push(Ev::Poll);
     // a connection that was cut mid-burst by plan 2/3 did not deliver all its frames: its script keeps
     // only what arrived in full (the model interprets frames by position)
-    Case { conns, evs, upfront: false, wake_driven: false }
+    Case { conns, evs, upfront: false, wake_driven: false, family: String::new() }
 }
 
 /// Fairness cases: 2..5 connections, some of them flooders with many pipelined calls; everything is
@@ -553,7 +595,161 @@ pub fn gen_upfront(rng: &mut Rng) -> Case {
     for _ in 0..rng.range(1, 4) {
         evs.push(Ev::Poll);
     }
-    Case { conns, evs, upfront: true, wake_driven: false }
+    Case { conns, evs, upfront: true, wake_driven: false, family: String::new() }
+}
+
+fn frames_of(i: usize, descs: &[Desc], from: usize, to: usize) -> Vec<u8> {
+    let mut b = vec![];
+    for k in from..to {
+        b.extend_from_slice(&descs[k].wire(i, k));
+        b.push(0);
+    }
+    b
+}
+
+/// `SV1` - a reply stream against waiting calls: 1..2 clients subscribe (streams of 2..5 items, nothing available yet) and
+/// the server is polled until idle; then every other client's single call arrives and every stream's results become
+/// available, in random order, before the next poll. The global order of the writes (`G`) is judged: no streaming client
+/// is written to twice before every waiting caller has been answered.
+pub fn gen_sv(rng: &mut Rng) -> Case {
+    let nstream = rng.range(1, 2);
+    let ncall = rng.range(1, 3);
+    let n = nstream + ncall;
+    let mut order: Vec<usize> = (0..n).collect();
+    for i in (1..n).rev() {
+        order.swap(i, rng.below(i + 1));
+    }
+    // order[..nstream] are the streaming clients
+    let mut conns = vec![];
+    for i in 0..n {
+        let streamer = order[..nstream].contains(&i);
+        let descs = if streamer {
+            vec![Desc::Sub(rng.range(2, 5) as u32, 0)]
+        } else if rng.chance(1, 4) {
+            vec![Desc::Fail(false)]
+        } else {
+            vec![Desc::Echo(rng.below(1000) as u32, false)]
+        };
+        conns.push(ConnScript { good: true, wfail: None, descs, credit: 0 });
+    }
+    let mut evs = vec![];
+    let mut co: Vec<usize> = (0..n).collect();
+    for i in (1..n).rev() {
+        co.swap(i, rng.below(i + 1));
+    }
+    for &i in &co {
+        evs.push(Ev::Connect(i));
+    }
+    evs.push(Ev::Poll);
+    for &i in &order[..nstream] {
+        evs.push(Ev::Arrive(i, frames_of(i, &conns[i].descs, 0, 1)));
+    }
+    evs.push(Ev::Poll);
+    evs.push(Ev::Poll);
+    let mut last: Vec<Ev> = vec![];
+    for i in 0..n {
+        if order[..nstream].contains(&i) {
+            last.push(Ev::Produce(i, 100));
+        } else {
+            last.push(Ev::Arrive(i, frames_of(i, &conns[i].descs, 0, 1)));
+        }
+    }
+    for i in (1..last.len()).rev() {
+        last.swap(i, rng.below(i + 1));
+    }
+    evs.extend(last);
+    evs.push(Ev::Poll);
+    evs.push(Ev::Poll);
+    Case { conns, evs, upfront: false, wake_driven: false, family: "SV1".into() }
+}
+
+/// `F2` - fairness after a history: 3..5 clients; in phase 1 each sends 0..2 calls (plain, oneway, failing, streaming with
+/// everything available) with polls in between, and one or two of them - not the last accepted - hang up, so that
+/// `swap_remove` and the stream hand-over have reordered the server's lists; the server is polled until idle. In phase 2
+/// the connection set is fixed: every remaining client's further calls (flooders: 4..14, others 0..3; no streams) arrive
+/// at once, then the server runs. `H<n0>,<n1>,..` = calls per client that belong to phase 1: the service log behind them
+/// is judged by the fairness oracle over the clients that are still connected.
+pub fn gen_fh(rng: &mut Rng) -> Case {
+    let n = rng.range(3, 5);
+    let mut conns = vec![];
+    let mut h = vec![];
+    let mut closing = vec![false; n];
+    // the clients that hang up in phase 1: one or two of the first n-1 (a non-last position of the list)
+    closing[rng.below(n - 1)] = true;
+    if rng.chance(1, 2) {
+        closing[rng.below(n - 1)] = true;
+    }
+    for i in 0..n {
+        let n1 = rng.range(0, 2);
+        let mut descs: Vec<Desc> = (0..n1)
+            .map(|_| match rng.below(6) {
+                0 => Desc::Fail(false),
+                1 => Desc::Echo(rng.below(1000) as u32, true),
+                2 | 3 => Desc::Sub(rng.below(3) as u32, 0),
+                _ => Desc::Echo(rng.below(1000) as u32, false),
+            })
+            .collect();
+        h.push(n1);
+        if !closing[i] {
+            let n2 = if rng.chance(1, 2) { rng.range(4, 14) } else { rng.range(0, 3) };
+            for _ in 0..n2 {
+                descs.push(match rng.below(6) {
+                    0 => Desc::Fail(false),
+                    1 => Desc::Echo(rng.below(1000) as u32, true),
+                    _ => Desc::Echo(rng.below(1000) as u32, false),
+                });
+            }
+        }
+        conns.push(ConnScript { good: true, wfail: None, descs, credit: UNLIMITED });
+    }
+    let mut evs = vec![];
+    for i in 0..n {
+        evs.push(Ev::Connect(i));
+        if rng.chance(1, 3) {
+            evs.push(Ev::Poll);
+        }
+    }
+    evs.push(Ev::Poll);
+    // phase 1: the calls one at a time in random client order, a poll after most of them
+    let mut sent = vec![0usize; n];
+    loop {
+        let open: Vec<usize> = (0..n).filter(|&i| sent[i] < h[i]).collect();
+        if open.is_empty() {
+            break;
+        }
+        let i = *rng.pick(&open);
+        evs.push(Ev::Arrive(i, frames_of(i, &conns[i].descs, sent[i], sent[i] + 1)));
+        sent[i] += 1;
+        if rng.chance(2, 3) {
+            evs.push(Ev::Poll);
+        }
+    }
+    evs.push(Ev::Poll);
+    for i in 0..n {
+        if closing[i] {
+            evs.push(Ev::Close(i));
+            if rng.chance(1, 2) {
+                evs.push(Ev::Poll);
+            }
+        }
+    }
+    evs.push(Ev::Poll);
+    evs.push(Ev::Poll);
+    // phase 2
+    let mut order: Vec<usize> = (0..n).filter(|&i| !closing[i]).collect();
+    for i in (1..order.len()).rev() {
+        order.swap(i, rng.below(i + 1));
+    }
+    for i in order {
+        if conns[i].descs.len() > h[i] {
+            evs.push(Ev::Arrive(i, frames_of(i, &conns[i].descs, h[i], conns[i].descs.len())));
+        }
+    }
+    for _ in 0..rng.range(1, 3) {
+        evs.push(Ev::Poll);
+    }
+    let fam = format!("F2 H{}", h.iter().map(|k| k.to_string()).collect::<Vec<_>>().join(","));
+    Case { conns, evs, upfront: false, wake_driven: false, family: fam }
 }
 
 pub fn main(o: &Opts, which: &str) {
@@ -568,7 +764,13 @@ pub fn main(o: &Opts, which: &str) {
     for k in 0..n {
         let mut r2 = Rng::new(rng.next());
         em.case(|| {
-            let mut c = if which == "srv-fair" && k % 2 == 0 { gen_upfront(&mut r2) } else { gen_case(&mut r2, &g) };
+            let mut c = if which == "srv-fair" && k % 2 == 0 {
+                if k % 6 == 0 { gen_fh(&mut r2) } else { gen_upfront(&mut r2) }
+            } else if (which == "srv-stream" && k % 8 == 5) || (which == "srv-fair" && k % 16 == 7) {
+                gen_sv(&mut r2)
+            } else {
+                gen_case(&mut r2, &g)
+            };
             // two cases in five run under a wake-driven executor (chosen by the case number: the case itself is the
             // one the eager executor would get)
             c.wake_driven = k % 5 == 1 || k % 5 == 3;
